@@ -130,6 +130,10 @@ package httpgen
 //@   modifies *
 //@   ensures r != nil
 //@   ensures generic_error: !errorsAs(err, *protovalidate.ValidationError) ==> len(r.Violations) == 1 && r.Violations[0] != nil && r.Violations[0].Field == "unknown" && r.Violations[0].Description == errmsg(err)
+// every violation names a field (the published FieldViolation schema requires `field`, and proto3 JSON omits an empty
+// string): a rule without a field path - a message-level rule - is reported against "unknown" (C06/C10)
+//@   ensures every_violation_names_a_field: forall k int :: 0 <= k && k < len(r.Violations) ==> r.Violations[k] != nil && r.Violations[k].Field != ""
+//@   loop 1 invariant forall k int :: 0 <= k && k < len(validationErr.Violations) ==> validationErr.Violations[k] != nil && validationErr.Violations[k].Field != ""
 //@   loop 2 invariant i >= 1
 // URL binders (C02): each configured parameter is read from the URL under its own name, converted by the kind of
 // the message field, and the converted value - never anything else - is stored; an empty path value or a failed
